@@ -117,7 +117,15 @@ func (a *Asker) Ask(kind string, q []byte, wait, linger time.Duration) *AskResul
 		if len(q) > 0 && q[len(q)-1]&1 == 1 {
 			method = "POST"
 		}
-		r, err := c.Do(method, q, a.Header)
+		var r *Resp
+		var err error
+		if method == "POST" && len(q) > 1 && q[1]&1 == 1 {
+			// every other POST (odd query IDs) is sent without a Content-Length: a body of unknown length is chunked on
+			// HTTP/1.1 and simply ends with the stream on HTTP/2
+			r, err = c.DoStreamedHdr(q, len(q), 0, a.Header)
+		} else {
+			r, err = c.Do(method, q, a.Header)
+		}
 		if err != nil {
 			res.Err = err
 			return res
